@@ -346,6 +346,9 @@ def build_inputs(ctx):
             cases.append(("jitter0.5+occupancies", g3.random_occupancies(g3.jitter(w, rng, 0.5), rng, 0.6), None, ALL_OPTS))
             cases.append(("thin", g3.thin(w, rng, 0.1, 0.2), None, some))
             cases.append(("shuffle-atoms", g3.shuffle_atoms(w, rng), None, some))
+            # identities that differ only in the insertion code (with the same-residue option on in half of the runs)
+            cases.append(("icode-siblings", g3.icode_siblings(g3.jitter(w, rng, 0.3), rng), None,
+                          sorted(set(rng.sample([o for o in ALL_OPTS if o[1] == "1"], 3) + rng.sample([o for o in ALL_OPTS if o[1] == "0"], 2)))))
             cases.append(("occupancies", g3.random_occupancies(w, rng, 0.5), None, half))
     for rep in range(ctx.pick(1, 4)):
         for tag, st in g3.clash_straddles(rng):
@@ -354,6 +357,8 @@ def build_inputs(ctx):
             cases.append(("straddle:" + tag, st, None, ALL_OPTS if not ctx.quick else rng.sample(ALL_OPTS[0::2], 4) + rng.sample(ALL_OPTS[1::2], 4)))
     for _ in range(ctx.pick(60, 600)):
         cases.append(("partial-occupancy", g3.clash_partial(rng, rng.randint(2, 4)), None, ALL_OPTS))
+    for _ in range(ctx.pick(20, 200)):
+        cases.append(("partial-occupancy:icode-siblings", g3.icode_siblings(g3.clash_partial(rng, rng.randint(2, 3)), rng), None, ALL_OPTS))
     cases += handmade()
     cases = [c for c in cases if g3.well_formed(c[1]) and c[1].residues]
     return cases
